@@ -170,18 +170,19 @@ fn _contains_msg_sender_conditions(function_definition: &Box<FunctionDefinition>
             for expression in function_args {
                 match expression {
                     //Match for both `function(msg.sender == owner)` or `function(msg.sender != owner)`
-                    Expression::Equal(_, box_expression, _)
-                    | Expression::NotEqual(_, box_expression, _) => {
-                        if let Expression::MemberAccess(_, box_expression, identifier) =
-                            *box_expression
-                        {
-                            //If the member access identifier is "msg.sender"
-                            let Identifier { name: right, .. } = identifier;
-                            if let Expression::Variable(Identifier { name: left, .. }) =
-                                *box_expression
-                            {
-                                if left == "msg" && right == "sender" {
-                                    return true;
+                    Expression::Equal(_, box_expression, box_expression_1)
+                    | Expression::NotEqual(_, box_expression, box_expression_1) => {
+                        //`msg.sender` can be on either side of the comparison
+                        for operand in [*box_expression, *box_expression_1] {
+                            if let Expression::MemberAccess(_, box_expression, identifier) = operand {
+                                //If the member access identifier is "msg.sender"
+                                let Identifier { name: right, .. } = identifier;
+                                if let Expression::Variable(Identifier { name: left, .. }) =
+                                    *box_expression
+                                {
+                                    if left == "msg" && right == "sender" {
+                                        return true;
+                                    }
                                 }
                             }
                         }
